@@ -462,8 +462,13 @@ class ErrGhost(Ghost):
         self.message = message
 
 
-def _pos(E, name, extra=()):
-    return MDict(pycls=OrderedDict, entries=[("line", E.int(name + ".line")), ("column", E.int(name + ".column"))] + list(extra))
+def _pos(E, name, extra=(), nvalues=0):
+    """a position record as create_position_dict builds it: line, column and (for keywords with values) the positions of the
+    value tokens - which are NOT where a message about the keyword points"""
+    ents = [("line", E.int(name + ".line")), ("column", E.int(name + ".column"))]
+    if nvalues:
+        ents.append(("values", [(E.int(f"{name}.v{i}.line"), E.int(f"{name}.v{i}.column")) for i in range(nvalues)]))
+    return MDict(pycls=OrderedDict, entries=ents + list(extra))
 
 
 def _obj(E, name, typ, entries=(), pos_extra=(), with_pos=True):
@@ -475,7 +480,7 @@ def _obj(E, name, typ, entries=(), pos_extra=(), with_pos=True):
     return MDict(pycls=CaseInsensitiveOrderedDict, ci=True, factory=CaseInsensitiveOrderedDict, entries=ents)
 
 
-MESSAGE_CASES = ["root-object", "list-object", "nested-object", "keyword", "keyword-in-list-object", "list-value-item",
+MESSAGE_CASES = ["root-object", "list-object", "nested-object", "keyword", "keyword-in-list-object", "list-value-item", "list-value-second-item",
                  "nested-list-value-item", "repeated-keyword", "repeated-keyword-as-a-whole", "repeated-keyword-first", "keyword-without-own-position", "no-positions",
                  "object-with-keyword-named-like-its-type"]
 
@@ -517,7 +522,7 @@ class CreateMessage(Contract):
             path = ["web"]
             exp = dict(name="web", pos="web")
         elif case == "keyword":
-            root = _obj(E, "root", "map", [(k, E.str("val"))], pos_extra=[(k, _pos(E, "kw"))])
+            root = _obj(E, "root", "map", [(k, E.str("val"))], pos_extra=[(k, _pos(E, "kw", nvalues=1))])
             path = [k]
             exp = dict(name=k, pos="kw")
         elif case == "keyword-in-list-object":
@@ -526,11 +531,15 @@ class CreateMessage(Contract):
             path = ["layers", 0, k]
             exp = dict(name=k, pos="kw")
         elif case == "list-value-item":
-            root = _obj(E, "root", "map", [(k, [E.real("a"), E.int("b")])], pos_extra=[(k, _pos(E, "kw"))])
+            root = _obj(E, "root", "map", [(k, [E.real("a"), E.int("b")])], pos_extra=[(k, _pos(E, "kw", nvalues=2))])
             path = [k, 0]
             exp = dict(name=k, pos="kw")
+        elif case == "list-value-second-item":
+            root = _obj(E, "root", "legend", [(k, [E.int("a"), E.int("b")])], pos_extra=[(k, _pos(E, "kw", nvalues=2))])
+            path = [k, 1]
+            exp = dict(name=k, pos="kw")
         elif case == "nested-list-value-item":
-            root = _obj(E, "root", "feature", [(k, [[(E.int("a"), E.int("b"))]])], pos_extra=[(k, _pos(E, "kw"))])
+            root = _obj(E, "root", "feature", [(k, [[(E.int("a"), E.int("b"))]])], pos_extra=[(k, _pos(E, "kw", nvalues=2))])
             path = [k, 0, 0]
             exp = dict(name=k, pos="kw")
         elif case == "repeated-keyword":
